@@ -158,6 +158,12 @@ def contKills (o : Oracle) (s : Site) : List Pat → Bool
 def canAtomic (o : Oracle) (loopPred : Pred) (lo : Nat) (subsequent : Pat) (rest : List Pat) : Bool :=
   contKills o (loopSite loopPred lo) (subsequent :: rest)
 
+/-- the same decision for a lazy loop that becomes the atomic GREEDY loop ("lazy to greedy"): what
+    follows has to fail in front of every rune the loop accepts (Go: `allowLazy`, and only
+    `subsequent` itself is consulted; consulting `rest` as well is sound) -/
+def canAtomicLazy (o : Oracle) (loopPred : Pred) (subsequent : Pat) (rest : List Pat) : Bool :=
+  contKills o (.acc loopPred) (subsequent :: rest)
+
 /-- the same walk when `rest` runs to the end of the pattern (`parent == nil: return true`): every
     item either fails at the dead positions or stays there AND always succeeds. -/
 def contEnd (o : Oracle) (s : Site) : List Pat → Bool
